@@ -15,7 +15,10 @@ pub mod w;
 pub mod c04;
 pub mod c05;
 pub mod c09;
+pub mod c10;
+pub mod c11;
 pub mod c12;
+pub mod c15;
 pub mod c17;
 pub mod c18;
 
